@@ -365,8 +365,9 @@ def check_C18(pid, tier, seed, chk):
             fails.append(line)
     # the tie between the abort-semantics model (the subject of the C18 theorems) and the code: every post-panic state of a
     # plain LRU recorded by faultscan must be one of the states the model predicts for an abort inside that operation
-    inj = [l for l in txt.splitlines() if l.startswith("INJ ")]
-    abort_stats = dict(records=len(inj), ok=0, unmodelled=0, unexpected=0, unexpected_drops=0,
+    inj = [l for l in txt.splitlines() if l.startswith("INJ ") or l.startswith("INJC ")]
+    ninjc = sum(1 for l in inj if l.startswith("INJC "))
+    abort_stats = dict(records=len(inj), plain_lru_records=len(inj) - ninjc, composite_records=ninjc, ok=0, unmodelled=0, unexpected=0, unexpected_drops=0,
                        records_with_drops=sum(1 for l in inj if "| dr=[" in l and "| dr=[]" not in l))
     acheck = os.path.join(chk.LEAN, ".lake", "build", "bin", "abortcheck")
     unexpected = []
@@ -404,13 +405,14 @@ def check_C18(pid, tier, seed, chk):
         violations += 1
     if unexpected and violations == 0:
         r = unexpected[0]
-        head = r.split("INJ ", 1)[-1].split(" | ")[0]
+        head = re.split(r"INJC? ", r, 1)[-1].split(" | ")[0]
         what = ["model-disagreement: the state the real code is left in after this injected panic" +
                 (" is one the abort-semantics model predicts, but the keys/values dropped by the unwind (dr=) are not the ones "
                  "lean/Caches/Model/AbortOwn.lean predicts for it" if r.startswith("UNEXPECTED-DROPS") else
-                 " is none of the states the abort-semantics model (lean/Caches/Model/Abort.lean) predicts for that operation") +
-                "; the memory-safety audit itself passed",
-                "correspondence that no longer checks: abort model vs RawLRU, " + r[:600],
+                 " is none of the states the abort-semantics model (lean/Caches/Model/" + ("AbortG" if "INJC " in r else "Abort") + ".lean) predicts for that operation") +
+                "; the memory-safety audit itself passed" +
+                (" — the MODEL raised its undefined-behaviour flag on this recorded pre-state" if r.startswith("FAULT") else ""),
+                "correspondence that no longer checks: abort model vs " + ("composite cache, " if "INJC " in r else "RawLRU, ") + r[:700],
                 "theorems of C18 are no longer tied to this code"]
         path = chk.write_replay(pid, seed, tier, "model-disagreement", what, script_of.get(head, [head, "end"]), "", "abort%s" % (head.split()[1] if len(head.split()) > 1 else "x"))
         out_lines.append("VIOLATION property=%s replay=%s no-failing-input-found" % (pid, path))
